@@ -1199,344 +1199,6 @@ theorem itimeout_msgs {hold now : Nat} {inv : Invoice} {k : Nat} {r : Res}
     obtain ⟨h, _, he⟩ := hm
     simp at he; exact ⟨_, he.2.symm⟩
 
-/-! ### registry level -/
-
-/-- all invoices of the registry satisfy the invariant; payment hashes are distinct. -/
-def RegGood (H : Nat → Nat) (R : Int) (reg : Reg) : Prop :=
-  (reg.invs.map (·.hash)).Nodup ∧ ∀ inv ∈ reg.invs, Good H R inv
-
-/-- the event adds no AMP invoice (AMP invoices are outside the model). -/
-def Event.noAmp : Event → Prop
-  | .addInvoice s => s.ampReq = false
-  | _ => True
-
-theorem findHash_some {invs : List Invoice} {h : Nat} {i : Invoice} (hf : findHash invs h = some i) :
-    i ∈ invs ∧ i.hash = h := by
-  unfold findHash at hf
-  refine ⟨List.mem_of_find?_eq_some hf, ?_⟩
-  have := List.find?_some hf
-  simpa using this
-
-theorem findHash_none {invs : List Invoice} {h : Nat} (hf : findHash invs h = none) :
-    ∀ i ∈ invs, i.hash ≠ h := by
-  intro i hi he
-  unfold findHash at hf
-  rw [List.find?_eq_none] at hf
-  have := hf i hi
-  simp [he] at this
-
-theorem findAddr_some {invs : List Invoice} {a : Nat} {i : Invoice} (hf : findAddr invs a = some i) :
-    i ∈ invs := by
-  unfold findAddr at hf
-  by_cases c : a = 0
-  · simp [c] at hf
-  · rw [if_neg c] at hf; exact List.mem_of_find?_eq_some hf
-
-theorem lookup_some {cfg : Cfg} {invs : List Invoice} {hash : Nat} {mpp : Option (Nat × Nat)} {amp : Bool}
-    {i : Invoice} (hl : lookup cfg invs hash mpp amp = some i) :
-    i ∈ invs ∧ (amp = false → i.hash = hash) := by
-  unfold lookup at hl
-  cases mpp with
-  | none => simp only at hl; exact ⟨(findHash_some hl).1, fun _ => (findHash_some hl).2⟩
-  | some ta =>
-    obtain ⟨t, a⟩ := ta
-    simp only at hl
-    by_cases ca : amp = true
-    · rw [if_pos ca] at hl
-      exact ⟨findAddr_some hl, fun h => by rw [ca] at h; cases h⟩
-    · rw [if_neg ca] at hl
-      by_cases cs : cfg.sql = true
-      · rw [if_pos cs] at hl
-        cases hf : findHash invs hash with
-        | none => simp [hf] at hl
-        | some j =>
-          simp only [hf] at hl
-          by_cases c2 : a ≠ 0 ∧ j.payAddr ≠ a
-          · rw [if_pos c2] at hl; cases hl
-          · rw [if_neg c2] at hl; cases hl
-            exact ⟨(findHash_some hf).1, fun _ => (findHash_some hf).2⟩
-      · rw [if_neg cs] at hl
-        cases hx : findAddr invs a with
-        | none =>
-          simp only [hx] at hl
-          exact ⟨(findHash_some hl).1, fun _ => (findHash_some hl).2⟩
-        | some x =>
-          cases hy : findHash invs hash with
-          | none => simp [hx, hy] at hl
-          | some y =>
-            simp only [hx, hy] at hl
-            by_cases c3 : x.hash = y.hash
-            · rw [if_pos c3] at hl; cases hl
-              exact ⟨findAddr_some hx, fun _ => by rw [c3]; exact (findHash_some hy).2⟩
-            · rw [if_neg c3] at hl; cases hl
-
-theorem mem_setInv {invs : List Invoice} {inv' i : Invoice} (h : i ∈ setInv invs inv') :
-    i = inv' ∨ i ∈ invs := by
-  unfold setInv at h
-  obtain ⟨j, hj, rfl⟩ := List.mem_map.mp h
-  by_cases c : j.hash = inv'.hash
-  · simp [c]
-  · simp [c, hj]
-
-theorem setInv_self {invs : List Invoice} {inv inv' : Invoice} (hm : inv ∈ invs)
-    (hh : inv.hash = inv'.hash) : inv' ∈ setInv invs inv' := by
-  unfold setInv
-  exact List.mem_map.mpr ⟨inv, hm, by simp [hh]⟩
-
-theorem setInv_hashes (invs : List Invoice) (inv' : Invoice) :
-    (setInv invs inv').map (·.hash) = invs.map (·.hash) := by
-  unfold setInv
-  rw [List.map_map]
-  apply List.map_congr_left
-  intro i _
-  by_cases c : i.hash = inv'.hash <;> simp [c]
-
-theorem RegGood.setInv {H R} {reg : Reg} (hg : RegGood H R reg) {inv' : Invoice} (h' : Good H R inv')
-    (subs : List Nat) : RegGood H R { reg with invs := setInv reg.invs inv', subs := subs } := by
-  refine ⟨by simp only [setInv_hashes]; exact hg.1, ?_⟩
-  intro i hi
-  rcases mem_setInv hi with rfl | hi
-  · exact h'
-  · exact hg.2 i hi
-
-theorem good_fresh (H : Nat → Nat) (R : Int) (s : InvSpec) (hs : s.ampReq = false) :
-    Good H R s.toInvoice := by
-  refine ⟨hs, ⟨by simp [InvSpec.toInvoice], ?_, ?_, ?_, ?_⟩, ?_, ?_, ?_, ?_, ?_⟩
-  all_goals simp [InvSpec.toInvoice, SameTotal, Complete]
-
-theorem addInvoice_good {H R} {reg reg' : Reg} {s : InvSpec} (hg : RegGood H R reg)
-    (hs : s.ampReq = false) (ha : addInvoice reg s = some reg') : RegGood H R reg' := by
-  unfold addInvoice at ha
-  by_cases c1 : (findHash reg.invs s.hash).isSome = true
-  · simp [c1] at ha
-  rw [if_neg c1] at ha
-  by_cases c2 : (findAddr reg.invs s.payAddr).isSome = true
-  · simp [c2] at ha
-  rw [if_neg c2] at ha
-  cases ha
-  have hn : findHash reg.invs s.hash = none := by
-    cases hf : findHash reg.invs s.hash with
-    | none => rfl
-    | some _ => simp [hf] at c1
-  refine ⟨?_, ?_⟩
-  · simp only [List.map_append, List.map_cons, List.map_nil]
-    rw [List.nodup_append]
-    refine ⟨hg.1, by simp, ?_⟩
-    intro a ha b hb
-    obtain ⟨i, hi, rfl⟩ := List.mem_map.mp ha
-    simp at hb; subst hb
-    exact findHash_none hn i hi
-  · intro i hi
-    rcases List.mem_append.mp hi with hi | hi
-    · exact hg.2 i hi
-    · simp at hi; subst hi; exact good_fresh H R s hs
-
-theorem processKeySend_good {H R} {cfg : Cfg} {reg reg' : Reg} {ctx : Ctx} (hg : RegGood H R reg)
-    (hp : processKeySend H cfg reg ctx = some reg') : RegGood H R reg' := by
-  unfold processKeySend at hp
-  cases hk : ctx.ks with
-  | none => simp [hk] at hp; subst hp; exact hg
-  | some o =>
-    cases o with
-    | none => simp [hk] at hp
-    | some p =>
-      simp only [hk] at hp
-      by_cases c1 : H p ≠ ctx.hash
-      · simp [c1] at hp
-      rw [if_neg c1] at hp
-      by_cases c2 : ctx.mpp.isSome = true
-      · simp [c2] at hp
-      rw [if_neg c2] at hp
-      by_cases c3 : expiryTooSoon ctx.expiry ctx.height cfg.rejectDelta = true
-      · simp [c3] at hp
-      rw [if_neg c3] at hp
-      split at hp
-      · rename_i r' ha
-        cases hp
-        exact addInvoice_good hg rfl ha
-      · cases hp; exact hg
-
-theorem notify_good {H R} {cfg : Cfg} {reg : Reg} {ctx : Ctx} (hg : RegGood H R reg)
-    (hR : ctx.rejectDelta = R) : RegGood H R (notify H cfg reg ctx).1 := by
-  unfold notify
-  simp only
-  cases hpre : (if (cfg.acceptKeysend && !ctx.amp) = true then processKeySend H cfg reg ctx else some reg) with
-  | none => exact hg
-  | some reg1 =>
-    have hg1 : RegGood H R reg1 := by
-      by_cases c : (cfg.acceptKeysend && !ctx.amp) = true
-      · rw [if_pos c] at hpre; exact processKeySend_good hg hpre
-      · rw [if_neg c] at hpre; cases hpre; exact hg
-    simp only
-    cases hl : lookup cfg reg1.invs ctx.hash (refAddr ctx) (ctx.amp && ctx.pathID.isNone) with
-    | none => exact hg1
-    | some inv =>
-      simp only
-      have hm := (lookup_some hl).1
-      exact hg1.setInv (inotify_good (hg1.2 inv hm) hR) _
-
-theorem settleHodl_good {H R} {reg : Reg} {p : Nat} (hg : RegGood H R reg) :
-    RegGood H R (settleHodl H reg p).1 := by
-  unfold settleHodl
-  cases hf : findHash reg.invs (H p) with
-  | none => exact hg
-  | some inv => exact hg.setInv (isettle_good p (hg.2 inv (findHash_some hf).1)) _
-
-theorem cancel_good {H R} {reg : Reg} {h : Nat} (hg : RegGood H R reg) :
-    RegGood H R (cancel reg h).1 := by
-  unfold cancel
-  cases hf : findHash reg.invs h with
-  | none => exact hg
-  | some inv => exact hg.setInv (icancel_good (hg.2 inv (findHash_some hf).1)) _
-
-theorem tick_good {H R} {cfg : Cfg} {reg : Reg} {dt : Nat} (hg : RegGood H R reg) :
-    RegGood H R (tick cfg reg dt).1 := by
-  unfold tick
-  simp only
-  refine ⟨?_, ?_⟩
-  · rw [List.map_map, List.map_map]
-    have : ∀ i ∈ reg.invs, (((fun x : Invoice => x.hash) ∘ fun x : Invoice × List (Nat × Res) => x.1) ∘
-        itimeout cfg.hold (reg.now + dt)) i = (fun x : Invoice => x.hash) i := by
-      intro i _
-      exact (itimeout_terms (hold := cfg.hold) (now := reg.now + dt) (inv := i)).1.symm
-    rw [List.map_congr_left this]; exact hg.1
-  · intro i hi
-    rw [List.map_map] at hi
-    obtain ⟨j, hj, rfl⟩ := List.mem_map.mp hi
-    exact itimeout_good _ _ (hg.2 j hj)
-
-theorem step_good {H R} {cfg : Cfg} {reg : Reg} {e : Event} (hg : RegGood H R reg)
-    (hR : cfg.rejectDelta = R) (he : e.noAmp) : RegGood H R (step H cfg reg e).1 := by
-  cases e with
-  | addInvoice s =>
-    simp only [step]
-    cases ha : addInvoice reg s with
-    | none => exact hg
-    | some reg' => exact addInvoice_good hg he ha
-  | notify ctx => exact notify_good hg hR
-  | settle p => exact settleHodl_good hg
-  | cancel h => exact cancel_good hg
-  | tick dt => exact tick_good hg
-
-theorem run_good {H R} {cfg : Cfg} (hR : cfg.rejectDelta = R) (evs : List Event) :
-    ∀ (reg : Reg), RegGood H R reg → (∀ e ∈ evs, e.noAmp) → RegGood H R (run H cfg reg evs) := by
-  induction evs with
-  | nil => intro reg hg _; exact hg
-  | cons e es ih =>
-    intro reg hg hne
-    simp only [run]
-    exact ih _ (step_good hg hR (hne e (by simp))) (fun x hx => hne x (by simp [hx]))
-
-theorem regGood_empty (H : Nat → Nat) (R : Int) : RegGood H R Reg.empty := by
-  refine ⟨by simp [Reg.empty], ?_⟩
-  intro i hi; simp [Reg.empty] at hi
-
-/-- htlc `k` is recorded settled on a settled invoice whose preimage is `p`. -/
-def SettledIn (reg : Reg) (k p : Nat) : Prop :=
-  ∃ inv ∈ reg.invs, inv.state = .settled ∧ inv.preimage = some p ∧
-    ∃ h ∈ inv.htlcs, h.key = k ∧ h.state = .settled
-
-theorem deliver_sub {subs : List Nat} {msgs : List (Nat × Res)} {m : Nat × Res}
-    (h : m ∈ (deliver subs msgs).2) : m ∈ msgs := by
-  unfold deliver at h
-  exact (List.mem_filter.mp h).1
-
-theorem fixHeight_settle {inv : Invoice} {key : Nat} {r : Res} {k : SettleKind} {p : Nat} {ht : Int}
-    (h : fixHeight inv key r = .settle k p ht) : r = .settle k p ht := by
-  cases r with
-  | fail fr ah =>
-    simp only [fixHeight] at h
-    cases hf : findHtlc inv key <;> simp [hf] at h
-  | settle => simpa [fixHeight] using h
-  | accept => simp [fixHeight] at h
-  | err => simp [fixHeight] at h
-
-theorem notify_settles {H R} {cfg : Cfg} {reg : Reg} {ctx : Ctx} (hg : RegGood H R reg)
-    (hR : ctx.rejectDelta = R) :
-    (∀ kind p ht, (notify H cfg reg ctx).2.reply = .res (.settle kind p ht) →
-        SettledIn (notify H cfg reg ctx).1 ctx.key p ∧ H p = ctx.hash) ∧
-    (∀ k kind p ht, (k, Res.settle kind p ht) ∈ (notify H cfg reg ctx).2.msgs →
-        SettledIn (notify H cfg reg ctx).1 k p) := by
-  unfold notify
-  simp only
-  cases hpre : (if (cfg.acceptKeysend && !ctx.amp) = true then processKeySend H cfg reg ctx else some reg) with
-  | none => simp
-  | some reg1 =>
-    have hg1 : RegGood H R reg1 := by
-      by_cases c : (cfg.acceptKeysend && !ctx.amp) = true
-      · rw [if_pos c] at hpre; exact processKeySend_good hg hpre
-      · rw [if_neg c] at hpre; cases hpre; exact hg
-    simp only
-    cases hl : lookup cfg reg1.invs ctx.hash (refAddr ctx) (ctx.amp && ctx.pathID.isNone) with
-    | none => simp
-    | some inv =>
-      simp only
-      obtain ⟨hm, hhash⟩ := lookup_some hl
-      have hgi := hg1.2 inv hm
-      cases hn : inotify H ctx inv with
-      | mk inv' r0 =>
-        simp only
-        have hterms : SameTerms inv inv' := by
-          have := inotify_terms (H := H) (ctx := ctx) (inv := inv); rw [hn] at this; exact this
-        have hmem : inv' ∈ setInv reg1.invs inv' := setInv_self hm hterms.1
-        have main : ∀ kind p ht, fixHeight inv' ctx.key r0 = .settle kind p ht →
-            inv'.state = .settled ∧ inv'.preimage = some p ∧ H p = ctx.hash ∧
-            ∃ h ∈ inv'.htlcs, h.key = ctx.key ∧ h.state = .settled := by
-          intro kind p ht hf
-          have := fixHeight_settle hf
-          subst this
-          exact inotify_settle hgi hR (fun ha => (hhash (by simp [ha])).symm) hn
-        refine ⟨?_, ?_⟩
-        · intro kind p ht hrep
-          simp at hrep
-          obtain ⟨s1, s2, s3, s4⟩ := main kind p ht hrep
-          exact ⟨⟨inv', hmem, s1, s2, s4⟩, s3⟩
-        · intro k kind p ht hmsg
-          have hin := deliver_sub hmsg
-          obtain ⟨⟨ht0, hr⟩, h, hh1, hh2, hh3⟩ := notifyMsgs_settle hin
-          obtain ⟨s1, s2, _, _⟩ := main kind p ht0 hr
-          exact ⟨inv', hmem, s1, s2, h, hh1, hh2, hh3⟩
-
-theorem settleHodl_settles {H : Nat → Nat} {reg : Reg} {q : Nat} :
-    ∀ k kind p ht, (k, Res.settle kind p ht) ∈ (settleHodl H reg q).2.msgs →
-        SettledIn (settleHodl H reg q).1 k p ∧ p = q := by
-  intro k kind p ht hmsg
-  unfold settleHodl at hmsg ⊢
-  cases hf : findHash reg.invs (H q) with
-  | none => simp [hf] at hmsg
-  | some inv =>
-    simp only [hf] at hmsg ⊢
-    have hin := deliver_sub hmsg
-    obtain ⟨⟨ah, hr⟩, s1, s2, h, hh1, hh2, hh3⟩ := isettle_msgs hin
-    cases hr
-    have hmem : (isettle H q inv).1 ∈ setInv reg.invs (isettle H q inv).1 :=
-      setInv_self (findHash_some hf).1 (isettle_terms).1
-    exact ⟨⟨_, hmem, s1, s2, h, hh1, hh2, hh3⟩, rfl⟩
-
-theorem cancel_no_settle {reg : Reg} {hash : Nat} :
-    ∀ k kind p ht, (k, Res.settle kind p ht) ∉ (cancel reg hash).2.msgs := by
-  intro k kind p ht hmsg
-  unfold cancel at hmsg
-  cases hf : findHash reg.invs hash with
-  | none => simp [hf] at hmsg
-  | some inv =>
-    simp only [hf] at hmsg
-    obtain ⟨ah, hr⟩ := icancel_msgs (deliver_sub hmsg)
-    cases hr
-
-theorem tick_no_settle {cfg : Cfg} {reg : Reg} {dt : Nat} :
-    ∀ k kind p ht, (k, Res.settle kind p ht) ∉ (tick cfg reg dt).2.msgs := by
-  intro k kind p ht hmsg
-  unfold tick at hmsg
-  simp only at hmsg
-  have hin := deliver_sub hmsg
-  rw [List.mem_flatten] at hin
-  obtain ⟨l, hl, hml⟩ := hin
-  rw [List.map_map] at hl
-  obtain ⟨i, _, rfl⟩ := List.mem_map.mp hl
-  obtain ⟨ah, hr⟩ := itimeout_msgs hml
-  cases hr
-
 /-! ### monotone states -/
 
 /-- allowed invoice state transitions: open → accepted → settled | canceled (any number of steps). -/
@@ -1715,123 +1377,6 @@ theorem itimeout_mono {hold now : Nat} {inv : Invoice} : Mono inv (itimeout hold
       simp [d, this, HState.le]
     · simp [d]; exact HState.le_refl _
 
-theorem hash_inj {l : List Invoice} (hn : (l.map (·.hash)).Nodup) {a b : Invoice}
-    (ha : a ∈ l) (hb : b ∈ l) (h : a.hash = b.hash) : a = b := by
-  induction l with
-  | nil => cases ha
-  | cons x t ih =>
-    simp only [List.map_cons, List.nodup_cons] at hn
-    obtain ⟨hx, ht⟩ := hn
-    rcases List.mem_cons.mp ha with rfl | ha'
-    · rcases List.mem_cons.mp hb with rfl | hb'
-      · rfl
-      · exact absurd (List.mem_map.mpr ⟨b, hb', h.symm⟩) hx
-    · rcases List.mem_cons.mp hb with rfl | hb'
-      · exact absurd (List.mem_map.mpr ⟨a, ha', h⟩) hx
-      · exact ih ht ha' hb'
-
-theorem setInv_mono {invs : List Invoice} (hn : (invs.map (·.hash)).Nodup) {inv inv' : Invoice}
-    (hm : inv ∈ invs) (hmono : Mono inv inv') :
-    ∀ i ∈ invs, ∃ i' ∈ setInv invs inv', Mono i i' := by
-  intro i hi
-  by_cases c : i.hash = inv'.hash
-  · have : i = inv := hash_inj hn hi hm (c.trans hmono.1.1.symm)
-    subst this
-    exact ⟨inv', setInv_self hm hmono.1.1, hmono⟩
-  · refine ⟨i, ?_, Mono.refl i⟩
-    unfold setInv
-    exact List.mem_map.mpr ⟨i, hi, by simp [c]⟩
-
-theorem addInvoice_sub {reg reg' : Reg} {s : InvSpec} (ha : addInvoice reg s = some reg') :
-    ∀ i ∈ reg.invs, i ∈ reg'.invs := by
-  unfold addInvoice at ha
-  by_cases c1 : (findHash reg.invs s.hash).isSome = true
-  · simp [c1] at ha
-  rw [if_neg c1] at ha
-  by_cases c2 : (findAddr reg.invs s.payAddr).isSome = true
-  · simp [c2] at ha
-  rw [if_neg c2] at ha
-  cases ha
-  intro i hi; simp [hi]
-
-theorem processKeySend_sub {H : Nat → Nat} {cfg : Cfg} {reg reg' : Reg} {ctx : Ctx}
-    (hp : processKeySend H cfg reg ctx = some reg') : ∀ i ∈ reg.invs, i ∈ reg'.invs := by
-  unfold processKeySend at hp
-  cases hk : ctx.ks with
-  | none => simp [hk] at hp; subst hp; exact fun _ h => h
-  | some o =>
-    cases o with
-    | none => simp [hk] at hp
-    | some p =>
-      simp only [hk] at hp
-      by_cases c1 : H p ≠ ctx.hash
-      · simp [c1] at hp
-      rw [if_neg c1] at hp
-      by_cases c2 : ctx.mpp.isSome = true
-      · simp [c2] at hp
-      rw [if_neg c2] at hp
-      by_cases c3 : expiryTooSoon ctx.expiry ctx.height cfg.rejectDelta = true
-      · simp [c3] at hp
-      rw [if_neg c3] at hp
-      split at hp
-      · rename_i r' ha
-        cases hp
-        exact addInvoice_sub ha
-      · cases hp; exact fun _ h => h
-
-/-- one event: every invoice of the registry is still there, moved forward. -/
-theorem step_mono {H R} {cfg : Cfg} {reg : Reg} {e : Event} (hg : RegGood H R reg) :
-    ∀ i ∈ reg.invs, ∃ i' ∈ (step H cfg reg e).1.invs, Mono i i' := by
-  intro i hi
-  cases e with
-  | addInvoice s =>
-    simp only [step]
-    cases ha : addInvoice reg s with
-    | none => exact ⟨i, hi, Mono.refl i⟩
-    | some reg' => exact ⟨i, addInvoice_sub ha i hi, Mono.refl i⟩
-  | notify ctx0 =>
-    simp only [step]
-    generalize ({ ctx0 with now := reg.now, rejectDelta := cfg.rejectDelta } : Ctx) = ctx
-    unfold notify
-    simp only
-    cases hpre : (if (cfg.acceptKeysend && !ctx.amp) = true then processKeySend H cfg reg ctx else some reg) with
-    | none => exact ⟨i, hi, Mono.refl i⟩
-    | some reg1 =>
-      have hsub : ∀ j ∈ reg.invs, j ∈ reg1.invs := by
-        by_cases c : (cfg.acceptKeysend && !ctx.amp) = true
-        · rw [if_pos c] at hpre; exact processKeySend_sub hpre
-        · rw [if_neg c] at hpre; cases hpre; exact fun _ h => h
-      have hg1 : RegGood H R reg1 := by
-        by_cases c : (cfg.acceptKeysend && !ctx.amp) = true
-        · rw [if_pos c] at hpre; exact processKeySend_good hg hpre
-        · rw [if_neg c] at hpre; cases hpre; exact hg
-      simp only
-      cases hl : lookup cfg reg1.invs ctx.hash (refAddr ctx) (ctx.amp && ctx.pathID.isNone) with
-      | none => exact ⟨i, hsub i hi, Mono.refl i⟩
-      | some inv =>
-        simp only
-        exact setInv_mono hg1.1 (lookup_some hl).1 (inotify_mono (H := H) (ctx := ctx)) i (hsub i hi)
-  | settle p =>
-    simp only [step]
-    unfold settleHodl
-    cases hf : findHash reg.invs (H p) with
-    | none => exact ⟨i, hi, Mono.refl i⟩
-    | some inv => exact setInv_mono hg.1 (findHash_some hf).1 (isettle_mono (H := H) (p := p)) i hi
-  | cancel h =>
-    simp only [step]
-    unfold cancel
-    cases hf : findHash reg.invs h with
-    | none => exact ⟨i, hi, Mono.refl i⟩
-    | some inv => exact setInv_mono hg.1 (findHash_some hf).1 icancel_mono i hi
-  | tick dt =>
-    simp only [step]
-    unfold tick
-    simp only
-    refine ⟨(itimeout cfg.hold (reg.now + dt) i).1, ?_, itimeout_mono⟩
-    rw [List.map_map]
-    exact List.mem_map.mpr ⟨i, hi, rfl⟩
-
-/-- the verdict for a replayed htlc is a function of its recorded state only; nothing changes. -/
 theorem replay_verdict {H R} {inv : Invoice} {ctx : Ctx} {g : Htlc} (hg : Good H R inv)
     (hf : findHtlc inv ctx.key = some g) (hh : ctx.hash = inv.hash) :
     (inotify H ctx inv).1 = inv ∧
